@@ -1,15 +1,19 @@
+\* Stand-alone configuration of the Checker._match machine (the checks generate their own under build/):
+\*   java -cp tla2tools.jar:CommunityModules-deps.jar tlc2.TLC -config LvsTree_walk.cfg LvsTree
 SPECIFICATION WSpec
 CONSTANTS
   MaxNodes = 3
-  MaxLen = 3
+  MaxLen = 2
   Corrupt = "none"
   CountSteps = TRUE
   DevPrebound = FALSE
 INVARIANT WalkEqualsRec
-INVARIANT YieldsSound
+INVARIANT WalkEqualsDocumented
 INVARIANT ContextRestored
+INVARIANT CarriedKept
 INVARIANT StackShape
 INVARIANT StepsBounded
 INVARIANT NoStall
+PROPERTY YieldsSoundA
 PROPERTY Terminates
 CHECK_DEADLOCK FALSE
